@@ -55,7 +55,9 @@ def cases(tier, seed):
         out.append(dict(part="fields", sym=t, seed=seed))
     grids = ["uniform", "distinct"] + (["seed"] if seed else [])
     for g in grids:
-        for t in tps:
+        for k, t in enumerate(tps):
+            if tier == "quick" and g != "uniform" and k % 2:
+                continue  # quick: non-uniform widths on every other tuple (they only enter the reduced-value identities)
             out.append(dict(part="detectors", sym=t, grid=g, tier=tier, seed=seed))
     return out
 
@@ -190,6 +192,12 @@ def _menu(case, sym, red, full):
     for tag, box in _boxes(sym, red, full):
         for ex in (True, False):
             e = "x" if ex else "r"
+            if tag == "touching" and tier == "quick":
+                # not clipped -> must be returned unchanged: one detector of each kind
+                dets.append(dict(kind="field", name=f"F_{tag}_{e}_0_0", box=box, exact_interpolation=ex, components=list(ALL), reduce_volume=False, pair=f"F_{tag}_{e}_0"))
+                dets.append(dict(kind="energy", name=f"E_{tag}_{e}_1", box=box, exact_interpolation=ex, reduce_volume=True, pair=f"E_{tag}_{e}"))
+                dets.append(dict(kind="poynting", name=f"S_{tag}_{e}_0_0", box=box, exact_interpolation=ex, direction="+", fixed_propagation_axis=0, reduce_volume=False, pair=f"S_{tag}_{e}_0"))
+                continue
             subs = subsets if tag == "whole" else (SUBSETS_Q[:3] if tag == "clipped" else SUBSETS_Q[:1])
             for si, cs in enumerate(subs):
                 for redv in (False, True):
